@@ -1,8 +1,240 @@
+import NaijaVerif.Model.Bump
 import NaijaVerif.Driver.Util
-/-! Family `bump` — stub (replaced by the unit that owns this family). -/
+
+/-! Line protocol `bump` — see `harness/src/bump.rs` for the request/answer grammar.  Every state
+change goes through `Bump.step` (the transition system the C11 theorems quantify over); the driver
+only numbers blocks and marks, decides `bad-op` by the rules of the protocol and formats answers.
+
+`new <cap> <page> [<basemod>]`: the base address is an environment parameter of the model; the
+check feeds the residue reported by the implementation as third word (default `page * 4096`). -/
 namespace NaijaVerif.Driver.BumpD
+open NaijaVerif.Bump NaijaVerif.Driver
+
+structure Info where
+  created : Bool := false
+  beg     : Nat := 0
+  len     : Nat := 0
+  seed    : Nat := 0
+  esz     : Nat := 0
+
+structure DSt where
+  ready : Bool := false
+  st    : St := St.init 0 1
+  infos : Array Info := #[]
+  marks : Array Nat := #[]
+
+def maxAlign : Nat := 65536
+def maxBytes : Nat := 2 ^ 40
+
+/-- The byte pattern a client writes into its block (same formula in the harness). -/
+def pat (seed j : Nat) : Nat := (seed * 131 + j * 7 + (j / 256) * 13 + 17) % 256
+
+def sampled (beg len k : Nat) : Bool :=
+  len ≤ 512 || k < 256 || k ≥ len - 256 || k % 509 == 0 ||
+    (let o := (beg + k) % 65536; o < 64 || o ≥ 65536 - 64)
+
+def hex16 (h : UInt64) : String :=
+  String.ofList ((List.range 16).map fun i => hexChar ((h.toNat >>> (4 * (15 - i))) % 16))
+
+/-- FNV-1a over the sampled bytes of `[beg, beg+len)`. -/
+def digest (m : Mem) (beg len : Nat) : String := Id.run do
+  let mut h : UInt64 := 0xcbf29ce484222325
+  for k in [0:len] do
+    if sampled beg len k then
+      h := (h ^^^ (m (beg + k)).toUInt64) * 0x100000001b3
+  return hex16 h
+
+def oc (a : Arena) : String := s!"off={a.offset} commit={a.commit}"
+
+def isPow2 (x : Nat) : Bool := x != 0 && (x &&& (x - 1)) == 0
+
+def nextCap (cap len esz : Nat) : Nat :=
+  let minNz := if esz == 1 then 8 else if esz ≤ 1024 then 4 else 1
+  max (max (cap * 2) (len + 1)) minNz
+
+def joinCaps (cs : List Nat) : String :=
+  if cs.isEmpty then "-" else ",".intercalate (cs.map toString)
+
+def bad (d : DSt) : DSt × String := (d, "bad-op")
+
+def setInfo (d : DSt) (blk : Nat) (f : Info → Info) : DSt :=
+  match d.infos[blk]? with
+  | some i => { d with infos := d.infos.set! blk (f i) }
+  | none => d
+
+def doAlloc (d : DSt) (bytes align : Nat) (z : Bool) : DSt × String :=
+  if !isPow2 align || align > maxAlign || bytes > maxBytes then bad d else
+  let id := d.infos.size
+  let st1 := step d.st (.alloc id bytes align z)
+  match findBlk st1.live id with
+  | none => ({ d with st := st1, infos := d.infos.push { seed := id } }, s!"err {oc st1.a}")
+  | some b =>
+      let sum := digest st1.a.mem b.beg b.len
+      let st2 := step st1 (.store id (pat id))
+      ({ d with st := st2, infos := d.infos.push { created := true, beg := b.beg, len := b.len, seed := id } },
+       s!"ok beg={b.beg} len={b.len} mod={(st1.a.base + b.beg) % align} {oc st1.a} sum={sum}")
+
+def doGrow (d : DSt) (blk new : Nat) : DSt × String :=
+  match d.infos[blk]?, findBlk d.st.live blk with
+  | some info, some b =>
+      if new < b.len || new > maxBytes then bad d else
+      match d.st.a.grow b.beg b.len new b.align with
+      | none => (d, s!"err {oc d.st.a}")
+      | some (nb, _) =>
+          let st1 := step d.st (.grow blk new)
+          let sum := digest st1.a.mem nb new
+          let st2 := step st1 (.store blk (pat info.seed))
+          (setInfo { d with st := st2 } blk (fun i => { i with beg := nb, len := new }),
+           s!"ok beg={nb} len={new} moved={if nb ≠ b.beg then 1 else 0} {oc st1.a} sum={sum}")
+  | _, _ => bad d
+
+def doShrink (d : DSt) (blk new : Nat) : DSt × String :=
+  match findBlk d.st.live blk with
+  | some b =>
+      if new > b.len || b.beg + b.len ≠ d.st.a.offset then bad d else
+      let (len, _) := d.st.a.shrink b.beg b.len new
+      let st1 := step d.st (.shrink blk new)
+      (setInfo { d with st := st1 } blk (fun i => { i with len := new }),
+       s!"ok beg={b.beg} len={len} moved=0 {oc st1.a}")
+  | none => bad d
+
+/-- `vec` / `vpush`: the allocator calls a `Vec<T,&Arena>` makes while `target - len` elements are
+pushed (std's amortised growth), each followed by the client's fill of the whole buffer. -/
+partial def vecLoop (d : DSt) (id esz seed cap len target : Nat) (caps : List Nat) (lastSum : String) :
+    DSt × List Nat × String × Bool :=
+  if len ≥ target then (d, caps, lastSum, false)
+  else if len == cap then
+    let newCap := nextCap cap len esz
+    let bytes := newCap * esz
+    let ok : Bool :=
+      if cap == 0 then (d.st.a.alloc bytes esz).isSome
+      else match findBlk d.st.live id with
+        | some b => (d.st.a.grow b.beg b.len bytes b.align).isSome
+        | none => false
+    let st1 := if cap == 0 then step d.st (.alloc id bytes esz false) else step d.st (.grow id bytes)
+    if !ok then (d, caps, lastSum, true)
+    else
+      match findBlk st1.live id with
+      | none => (d, caps, lastSum, true)
+      | some b =>
+          let sum := digest st1.a.mem b.beg b.len
+          let st2 := step st1 (.store id (pat seed))
+          let d' := setInfo { d with st := st2 } id
+            (fun i => { i with created := true, beg := b.beg, len := b.len, esz := esz })
+          vecLoop d' id esz seed newCap (min newCap target) target (caps ++ [newCap]) sum
+  else vecLoop d id esz seed cap (min cap target) target caps lastSum
+
+def vecAnswer (d : DSt) (id : Nat) (caps : List Nat) (lastSum : String) (failed : Bool) : String :=
+  if failed then s!"err caps={joinCaps caps} {oc d.st.a}"
+  else match findBlk d.st.live id with
+    | none => s!"ok none {oc d.st.a}"
+    | some b =>
+        if caps.isEmpty then s!"ok beg={b.beg} len={b.len} caps=- {oc d.st.a}"
+        else s!"ok beg={b.beg} len={b.len} caps={joinCaps caps} {oc d.st.a} sum={lastSum}"
+
+def stepLine (d : DSt) (line : String) : DSt × String :=
+  let ws := words line
+  match ws with
+  | "new" :: c :: p :: rest =>
+      match c.toNat?, p.toNat?, rest with
+      | some capReq, some page, [] =>
+          if capReq > 2 ^ 30 || page > 15 then bad d else
+          let s := St.init (page * 4096) capReq
+          ({ ready := true, st := s, infos := #[], marks := #[] }, s!"cap={s.a.cap} basemod={page * 4096}")
+      | some capReq, some page, [bm] =>
+          match bm.toNat? with
+          | some basemod =>
+              if capReq > 2 ^ 30 || page > 15 then bad d else
+              let s := St.init basemod capReq
+              ({ ready := true, st := s, infos := #[], marks := #[] }, s!"cap={s.a.cap} basemod={basemod}")
+          | none => bad d
+      | _, _, _ => bad d
+  | _ =>
+  if !d.ready then bad d else
+  match ws with
+  | ["alloc", b, a] =>
+      match b.toNat?, a.toNat? with
+      | some bytes, some align => doAlloc d bytes align false
+      | _, _ => bad d
+  | ["zalloc", b, a] =>
+      match b.toNat?, a.toNat? with
+      | some bytes, some align => doAlloc d bytes align true
+      | _, _ => bad d
+  | ["grow", b, n] =>
+      match b.toNat?, n.toNat? with
+      | some blk, some new => doGrow d blk new
+      | _, _ => bad d
+  | ["shrink", b, n] =>
+      match b.toNat?, n.toNat? with
+      | some blk, some new => doShrink d blk new
+      | _, _ => bad d
+  | ["mark"] => ({ d with marks := d.marks.push d.st.a.offset }, oc d.st.a)
+  | ["reset", k] =>
+      match k.toNat? >>= (d.marks[·]?) with
+      | some m =>
+          if m > d.st.a.offset then bad d else
+          let st1 := step d.st (.reset m)
+          ({ d with st := st1 }, oc st1.a)
+      | none => bad d
+  | ["decommit"] =>
+      let st1 := step d.st .decommit
+      ({ d with st := st1 }, oc st1.a)
+  | ["borrow"] =>
+      let st1 := step d.st .borrow
+      ({ d with st := st1 }, oc st1.a)
+  | ["release"] =>
+      match d.st.borrows with
+      | [] => bad d
+      | saved :: _ =>
+          let st1 := step d.st .release
+          if saved > d.st.a.offset then ({ d with st := st1 }, "bad-op")
+          else ({ d with st := st1 }, oc st1.a)
+  | ["fill", b, s] =>
+      match b.toNat?, s.toNat? with
+      | some blk, some seed =>
+          match findBlk d.st.live blk with
+          | some _ =>
+              let st1 := step d.st (.store blk (pat seed))
+              (setInfo { d with st := st1 } blk (fun i => { i with seed := seed }), "ok")
+          | none => bad d
+      | _, _ => bad d
+  | ["sum", b] =>
+      match b.toNat? >>= (d.infos[·]?) with
+      | some i =>
+          if !i.created then bad d
+          else if i.beg + i.len > d.st.a.commit then (d, "unreadable")
+          else (d, digest d.st.a.mem i.beg i.len)
+      | none => bad d
+  | ["peek", o, l] =>
+      match o.toNat?, l.toNat? with
+      | some off, some len =>
+          if len > 2 ^ 20 || off > 2 ^ 40 then bad d else
+          let hi := min (off + len) d.st.a.commit
+          if off ≥ hi then (d, "empty") else (d, digest d.st.a.mem off (hi - off))
+      | _, _ => bad d
+  | ["vec", e, n] =>
+      match e.toNat?, n.toNat? with
+      | some esz, some cnt =>
+          if cnt > 2 ^ 20 || !(esz == 1 || esz == 2 || esz == 4 || esz == 8) then bad d else
+          let id := d.infos.size
+          let d0 := { d with infos := d.infos.push { seed := id, esz := esz } }
+          let (d1, caps, sum, failed) := vecLoop d0 id esz id 0 0 cnt [] ""
+          (d1, vecAnswer d1 id caps sum failed)
+      | _, _ => bad d
+  | ["vpush", b, n] =>
+      match b.toNat?, n.toNat? with
+      | some blk, some cnt =>
+          match d.infos[blk]?, findBlk d.st.live blk with
+          | some i, some bl =>
+              if i.esz == 0 || bl.len == 0 || bl.len % i.esz != 0 || cnt > 2 ^ 20 then bad d else
+              let cap := bl.len / i.esz
+              let (d1, caps, sum, failed) := vecLoop d blk i.esz i.seed cap cap (cap + cnt) [] ""
+              (d1, vecAnswer d1 blk caps sum failed)
+          | _, _ => bad d
+      | _, _ => bad d
+  | _ => bad d
 
 def main : IO Unit := do
-  IO.eprintln "family bump: not built yet"
+  loop (← IO.getStdin) (← IO.getStdout) ({} : DSt) stepLine
 
 end NaijaVerif.Driver.BumpD
